@@ -423,7 +423,8 @@ def mode_lifecycle(ct: Container, rep, rule="mode-lifecycle"):
             if isinstance(c, ast.Constant) and isinstance(c.value, str) and c.value in ("r+b", "rb+", "wb", "w+b", "ab", "a+b", "r+", "w", "a", "xb") and f.name not in ("allow_write",):
                 # comparisons against the mode are fine; passing it to open is not
                 parent_calls = [x for x in walk_no_nested(f.node) if isinstance(x, ast.Call) and any(a is c for a in x.args) and isinstance(x.func, ast.Attribute) and x.func.attr == "open"]
-                if parent_calls:
+                # an exclusive creation ('x') fails on every existing file: it cannot change the bytes of a file that is there
+                if parent_calls and "x" not in c.value:
                     rep.fail(rule, mod, f"Tdf.{f.name}", parent_calls[0], f"a write-capable mode literal {c.value!r} is passed to open()")
 
 
